@@ -273,14 +273,14 @@ let () =
               if not (reason_text_ok v) then ok := false end
           | None -> ()) (split_ws impl_line);
       Printf.printf "%s | %s\n" impl_line (if !ok then "oracle=ok" else "oracle=fail@reason-phrase-not-printable")
-    | mode :: rest when mode = "D" || mode = "S" || mode = "I" || mode = "X" || mode = "B" || mode = "E" || mode = "R" || mode = "T" || mode = "V" ->
+    | mode :: rest when mode = "D" || mode = "S" || mode = "I" || mode = "X" || mode = "B" || mode = "E" || mode = "K" || mode = "N" || mode = "R" || mode = "T" || mode = "V" ->
       let (rest, ann) = (let rec cut acc = function
           | "@c09" :: a -> (List.rev acc, Some a) | x :: r -> cut (x :: acc) r | [] -> (List.rev acc, None) in cut [] rest) in
       let (small, cache, script) = (match mode, rest with
           | "D", [s; c; sc] -> (s, c, sc)
           | ("S" | "I" | "R" | "T" | "V"), [s; c; _; _; sc] -> (s, c, sc)
           (* B: the same exchange while another request keeps the one-thread blocking pool busy *)
-          | ("B" | "E"), [s; c; _slow; sc] -> (s, c, sc)
+          | ("B" | "E" | "K" | "N"), [s; c; _slow; sc] -> (s, c, sc)
           (* X: a disk write fault while the upload (longer than the file-size limit) is saved: the same
              ErrorSavingFile path as a cache directory that cannot be written *)
           | "X", [s; _; _limit; sc] -> (s, "missing", sc)
@@ -297,7 +297,7 @@ let () =
       let wstr = if List.length wire <= 131072 then "x" ^ String.concat "" (List.map (Printf.sprintf "%02x") wire)
         else Printf.sprintf "%d:h%016Lx" (List.length wire) (fnv64_ints wire) in
       Printf.printf "log=[%s] wire=%s files=0%s%s | %s\n" log wstr
-        (if mode = "I" then " idle=0" else if mode = "B" || mode = "E" || mode = "R" || mode = "V" then " busy=0" else "")
+        (if mode = "I" then " idle=0" else if mode = "B" || mode = "E" || mode = "K" || mode = "N" || mode = "R" || mode = "V" then " busy=0" else "")
         (if out.lo_out_of_fuel then " OUT-OF-FUEL" else "")
         (let v = oracle (List.map int_of_n data) impl_line in
          (* mode I: no temp file may exist once every request sent so far has been answered, although the
@@ -344,7 +344,7 @@ let () =
            then "oracle=fail@temp-file-alive-after-its-request-was-answered" else v in
          (* mode B: the upload was abandoned (its connection has ended) while the blocking pool was busy: its temp
             file must be gone then, not when the pool gets round to it *)
-         let v = if (mode = "B" || mode = "E" || mode = "R" || mode = "V") && v = "oracle=ok" && field "busy=" (split_ws impl_line) <> Some "0"
+         let v = if (mode = "B" || mode = "E" || mode = "K" || mode = "N" || mode = "R" || mode = "V") && v = "oracle=ok" && field "busy=" (split_ws impl_line) <> Some "0"
            then "oracle=fail@temp-file-alive-after-its-request-was-abandoned" else v in
          match ann, v with
          | Some [s; m; l; decl; kind; bodytok], "oracle=ok" ->
